@@ -172,6 +172,52 @@ def auth_cases(ctx):
             for k, md in sent:
                 if list(md or []) != want:
                     ctx.fail("%s request carries metadata %r, the configured provider provides %r" % (k, md, want), j, tag="auth-metadata")
+        # a provider that fails once, and a provider that is slow while another thread asks: every request that
+        # LEAVES must still carry the provider's metadata
+        state = {"calls": 0, "fail_first": True, "gate": None}
+
+        class Flaky(AuthProvider):
+            def provide(self):
+                state["calls"] += 1
+                if state["fail_first"] and state["calls"] == 1:
+                    raise RuntimeError("token service unavailable")
+                if state["gate"] is not None:
+                    state["entered"].set()
+                    state["gate"].wait(2)
+                return [("authorization", "Bearer s3cr3t")]
+        me.Flaky = Flaky
+        for scenario in ("provider fails on its first call", "provider is slow while another thread sends"):
+            cfg = ConfigService({"SERVICE_AUTH_PROVIDER": "harness.props.c08.Flaky", "APP_ROOT": "/app", "SERVICE_URL": "localhost:1"},
+                                tracepoints=TracepointConfigService())
+            cfg.resource = Resource.create()
+            grpc = GRPCService(cfg)
+            del sent[:]
+            state.update(calls=0, fail_first=scenario.startswith("provider fails"), gate=None)
+            j = dict(auth=scenario)
+            ctx.case(j, bucket="auth-faulty-provider")
+            if state["fail_first"]:
+                for _ in range(3):
+                    try:
+                        LongPoll(cfg, grpc).poll()
+                    except BaseException:
+                        pass            # the request did not leave: fine
+            else:
+                state["gate"], state["entered"] = threading.Event(), threading.Event()
+                t = threading.Thread(target=lambda: LongPoll(cfg, grpc).poll(), daemon=True)
+                t.start()
+                state["entered"].wait(2)
+                t2 = threading.Thread(target=lambda: LongPoll(cfg, grpc).poll(), daemon=True)
+                state["entered"].clear()
+                t2.start()
+                state["entered"].wait(0.3)
+                state["gate"].set()
+                t.join(3)
+                t2.join(3)
+            for k, md in sent:
+                if list(md or []) != [("authorization", "Bearer s3cr3t")]:
+                    ctx.fail("%s: a %s request left with metadata %r instead of the provider's" % (scenario, k, md), j, tag="auth-metadata")
+            if not sent:
+                ctx.fail("%s: no request was ever sent" % scenario, j, tag="auth-requests")
     finally:
         ps.SnapshotServiceStub, pollmod.PollConfigStub = saved
 
